@@ -5,8 +5,6 @@ import re
 
 _OTHER_BLANKS = re.compile("[\r\n\t]")
 _SEVERAL_BLANKS = re.compile("  +")
-_QUOTES_FOR_LITERALS = re.compile('[^\\\]"')
-_INIT_INLINE_COMMENT = re.compile(" #")
 _RDF_TYPE_CONTRACTED = ["a", "rdf:type"]
 _RDF_TYPE_URI = "<http://www.w3.org/1999/02/22-rdf-syntax-ns#type>"
 _BOOLEANS = ["true", "false"]
@@ -87,25 +85,25 @@ class BigTtlTriplesYielder(BaseTriplesYielder):
         return result if " #" not in result else self._remove_comments_if_needed(result)
 
     def _remove_comments_if_needed(self, str_line):
-        """Remove comments in the middle of the line.
+        """Remove a trailing comment: the first '#' that follows a blank and is not
+        inside a double-quoted string (a backslash escapes the next character of a string).
         Lines starting with # wont be erased
         """
-        if '"' not in str_line:  # Comment mark and no literals, trivial case
-            return str_line[:str_line.find(" #")]
-        # We need to find the begining and end of the literal to avoid erasing
-        # comments within literals (actual content)
-        quotes_indexes = []
-        count_down_quotes = 2
-        for a_match in _QUOTES_FOR_LITERALS.finditer(str_line):
-            quotes_indexes.append(a_match.start(0))
-            count_down_quotes -= 1
-            if count_down_quotes == 0:
-                break
-        for a_match in _INIT_INLINE_COMMENT.finditer(str_line):
-            if a_match.start(0) < quotes_indexes[0] or a_match.start(0) > quotes_indexes[1]:
-                return str_line[:a_match.start(0)]
-        return str_line  # If this point is reached, it means that the potential comments
-                         # are actual content of a string literal
+        in_string = False
+        escaped = False
+        for i, a_char in enumerate(str_line):
+            if in_string:
+                if escaped:
+                    escaped = False
+                elif a_char == "\\":
+                    escaped = True
+                elif a_char == '"':
+                    in_string = False
+            elif a_char == '"':
+                in_string = True
+            elif a_char == "#" and i > 0 and str_line[i - 1] == " ":
+                return str_line[:i - 1]
+        return str_line  # the potential comments are actual content of string literals
 
     def _process_line_2(self, str_line):
         str_line = self._clean_line(str_line)
